@@ -148,6 +148,82 @@ def directed_states(consts, seed, n):
     return out
 
 
+def perm_forward(consts, st):
+    """the specified permutation in plain integer arithmetic (used to check the inversion below, never as a judge)"""
+    C = consts['C']; S = consts['S']
+    Mm = [[consts['M'][12 * j + i] for i in range(12)] for j in range(12)]
+    Pm = [[consts['P'][12 * j + i] for i in range(12)] for j in range(12)]
+    mvp = lambda mat, v: [sum(mat[j][i] * v[j] for j in range(12)) % P for i in range(12)]
+    s = [(st[i] + C[i]) % P for i in range(12)]
+    for r in range(3):
+        s = [(pow(s[i], 7, P) + C[(r + 1) * 12 + i]) % P for i in range(12)]; s = mvp(Mm, s)
+    s = [(pow(s[i], 7, P) + C[48 + i]) % P for i in range(12)]; s = mvp(Pm, s)
+    for r in range(22):
+        x0 = (pow(s[0], 7, P) + C[60 + r]) % P
+        t = [x0] + s[1:]
+        s0 = sum(t[i] * S[23 * r + i] for i in range(12)) % P
+        s = [(t[i] + x0 * S[23 * r + 11 + i]) % P for i in range(12)]
+        s[0] = s0
+    for r in range(3):
+        s = [(pow(s[i], 7, P) + C[82 + r * 12 + i]) % P for i in range(12)]; s = mvp(Mm, s)
+    s = [pow(x, 7, P) for x in s]
+    return mvp(Mm, s)
+
+
+def perm_inverse(consts, out):
+    """the state the specified permutation maps to `out` (inverse matrices, 7th roots, one linear equation per partial round)"""
+    C = consts['C']; S = consts['S']
+    inv7 = pow(7, -1, P - 1)
+    def matinv(A):
+        a = [[A[r][c] % P for c in range(12)] + [1 if r == c else 0 for c in range(12)] for r in range(12)]
+        for col in range(12):
+            piv = next(r for r in range(col, 12) if a[r][col] % P)
+            a[col], a[piv] = a[piv], a[col]
+            iv = pow(a[col][col], -1, P)
+            a[col] = [x * iv % P for x in a[col]]
+            for r in range(12):
+                if r != col and a[r][col]:
+                    f = a[r][col]
+                    a[r] = [(x - f * y) % P for x, y in zip(a[r], a[col])]
+        return [row[12:] for row in a]
+    TM = [[consts['M'][12 * j + i] for j in range(12)] for i in range(12)]; TMi = matinv(TM)
+    TP = [[consts['P'][12 * j + i] for j in range(12)] for i in range(12)]; TPi = matinv(TP)
+    ap = lambda T, v: [sum(T[i][j] * v[j] for j in range(12)) % P for i in range(12)]
+    root = lambda v: [pow(x, inv7, P) for x in v]
+    s = root(ap(TMi, [x % P for x in out]))
+    for r in range(2, -1, -1):
+        s = ap(TMi, s); s = root([(s[i] - C[82 + r * 12 + i]) % P for i in range(12)])
+    for r in range(21, -1, -1):
+        Sr = S[23 * r:23 * r + 23]
+        w = [Sr[11 + i] for i in range(12)]
+        den = (Sr[0] - sum(w[i] * Sr[i] for i in range(1, 12))) % P
+        x0 = (s[0] - sum(s[i] * Sr[i] for i in range(1, 12))) * pow(den, -1, P) % P
+        s = [pow((x0 - C[60 + r]) % P, inv7, P)] + [(s[i] - x0 * w[i]) % P for i in range(1, 12)]
+    s = ap(TPi, s); s = root([(s[i] - C[48 + i]) % P for i in range(12)])
+    for r in range(2, -1, -1):
+        s = ap(TMi, s); s = root([(s[i] - C[(r + 1) * 12 + i]) % P for i in range(12)])
+    return [(s[i] - C[i]) % P for i in range(12)]
+
+
+def output_directed_states(consts, seed, n):
+    """states whose permutation OUTPUT is prescribed: words at the signed/unsigned boundary 2^63, at p, at 2^32 boundaries,
+    so that whatever an entry point does to its result on the way out (canonicalisation, store, lane extraction) meets them"""
+    rng = vlib.Rng(seed ^ 0x0D17)
+    W = [2**63 - 1, 2**63, 2**63 + 1, 0x7FFFFFFF00000000, 0x7FFFFFFF00000001, 0x7FFFFFFF80000000, 0x7FFFFFFFFFFFFFFE, 0x8000000000000001,
+         P - 1, P - 2, 0, 1, 2**32 - 1, 2**32, 2**32 + 1, 0xFFFFFFFE00000000, 0xFFFFFFFEFFFFFFFF, 0xFFFFFFFF00000000 - 2**32 + 1, 2**62, 3 * 2**62]
+    out = []
+    for t in range(n):
+        o = [W[rng.below(len(W))] % P for _ in range(12)]
+        if t % 3 == 1:
+            o = [(0x7FFFFFFF00000001 + rng.below(2**32 - 1)) for _ in range(12)]
+        elif t % 3 == 2:
+            k = rng.below(12); o = [rng.next() % P if i != k else W[t % len(W)] % P for i in range(12)]
+        st = perm_inverse(consts, o)
+        if t == 0 and perm_forward(consts, st) != [x % P for x in o]:
+            return []          # tables of another shape: the family is skipped rather than guessed
+        out.append(st)
+    return out
+
 def write_cases(path, cases):
     with open(path, 'w') as f:
         for op, s, b in cases:
@@ -178,6 +254,9 @@ def run(tier, seed, replay=None):
             cj = json.load(open(pc))
             consts = {k: [vlib.unw64(x) for x in v] for k, v in cj.items()}
             ds = directed_states(consts, seed, 120 if tier == 'quick' else 2400)
+            od = output_directed_states(consts, seed, 60 if tier == 'quick' else 1200)
+            ck.cov['output_directed_states'] = len(od)
+            ds = ds + od
             rng2 = vlib.Rng(seed ^ 0x77)
             for i, st in enumerate(ds):
                 cases.append(('permfull' if i % (10 if tier == 'quick' else 40) == 0 else 'perm', st, ds[(i * 7 + 3) % len(ds)]))
